@@ -22,6 +22,7 @@ type progCase struct {
 	Opts    backends.Options `json:"opts"`
 	Driver  string           `json:"driver,omitempty"` // "" = http, "mixed" = some ops through the Backend API
 	Ops     []prog.Op        `json:"ops"`
+	NoTick  bool             `json:"noTick,omitempty"` // the server's (fixed) clock stands still for the whole program
 }
 
 var c02Buckets = []string{"bk0", "bk1", "bk2"}
